@@ -54,6 +54,9 @@ type StatCase struct {
 	// Lead (vm): text in front of the measured term in the same evaluation, %d = N: other dice terms with clamps and
 	// keeps, whose settings must not reach the measured dice
 	Lead string `json:"lead,omitempty"`
+	// Body (vm): "" the measured dice are one top-level term | "func" each measured die is rolled inside a function body,
+	// "[mf(), mf(), ...]" with K calls per Run | "computed" inside a computed value read K times; the values are read from Ret
+	Body string `json:"body,omitempty"`
 }
 
 var vmLeads = []string{"", "", "d%[1]dmin%[1]d; ", "d%[1]dmax1; ", "3d%[1]dk1; ", "d%[1]dmin%[1]d + ", "2d%[1]dmax1 + ", "2d%[1]dkl1min%[1]d; d%[1]d; ",
@@ -421,6 +424,48 @@ func feedVM(c StatCase, seed []byte, a *acc, s *rt.Section) *rt.Failure {
 	prog := fmt.Sprintf("%dd%d", times, c.N)
 	if c.Lead != "" {
 		prog = fmt.Sprintf(c.Lead, c.N) + prog
+	}
+	if c.Body != "" {
+		if times > 200 {
+			times = 200
+		}
+		def, call := fmt.Sprintf("func mf() { d%d }; ", c.N), "mf()"
+		if c.Body == "computed" {
+			def, call = fmt.Sprintf("&mc = d%d; ", c.N), "mc"
+		}
+		prog = "[" + strings.TrimSuffix(strings.Repeat(call+", ", times), ", ") + "]"
+		if c.Lead != "" {
+			// the result is a list: a lead written as a summand becomes a statement of its own
+			lead := c.Lead
+			if strings.HasSuffix(lead, " + ") {
+				lead = strings.TrimSuffix(lead, " + ") + "; "
+			}
+			prog = fmt.Sprintf(lead, c.N) + prog
+		}
+		prog = def + prog
+		for seen := 0; seen < c.Draws; {
+			if err := vm.Run(prog); err != nil {
+				return s.NewFailure("vm-runs", "vm:error", c, fmt.Sprintf("%q: %v", clipStr(prog, 200), err), "no error")
+			}
+			list, ok := vm.Ret.ReadArray()
+			if !ok || len(list.List) != times {
+				return s.NewFailure("vm-runs", "vm:dice-count", c, fmt.Sprintf("%q: result %s", clipStr(prog, 200), clipStr(vm.Ret.ToString(), 200)), fmt.Sprintf("an array of %d dice", times))
+			}
+			for _, e := range list.List {
+				x, ok := e.ReadInt()
+				if !ok {
+					return s.NewFailure("vm-runs", "vm:dice-text", c, fmt.Sprintf("%q: element %s", clipStr(prog, 200), e.ToString()), "an integer")
+				}
+				if !a.add(int64(x)) {
+					return nil
+				}
+				seen++
+			}
+		}
+		if g1 := globalSeed(); g1 != g0 {
+			return s.NewFailure("source-discipline", "vm-source:global-touched", c, "package-global generator state "+g0+" -> "+g1+" across dice in bodies on a seeded Context", "unchanged: dice draw from the Context's generator")
+		}
+		return nil
 	}
 	for seen := 0; seen < c.Draws; {
 		if err := vm.Run(prog); err != nil {
@@ -864,11 +909,14 @@ func TestProp(t *testing.T) {
 		os.Setenv("VERIF_SHRINKTIME", "0s")
 	}
 	run.Check("vm", 96, 256,
-		fmt.Sprintf("script \"<lead><K>d<n>\" (K in {20,100,500}; lead = nothing or other dice terms with min/max clamps and keeps in the same evaluation, as statements or summands) run repeatedly (at most 1000 Runs) on one Context seeded with 16 random bytes until %d dice were printed in the dice span of the process text; n drawn as in section large; the printed dice are judged like direct draws (range, faces / quantile and residue cells, successive pairs), and the package-global generator must be untouched; non-trivial = n not a power of two or n > 2^32; distinct by (n, K, state)", vdraws),
+		fmt.Sprintf("script \"<lead><K>d<n>\" (K in {20,100,500}; lead = nothing or other dice terms with min/max clamps and keeps in the same evaluation, as statements or summands; in 2 of 5 cases each measured die is instead rolled inside a function body or a computed value, \"[mf(), mf(), ...]\" with K <= 200 calls, and read from the result) run repeatedly (at most 1000 Runs) on one Context seeded with 16 random bytes until %d dice were printed in the dice span of the process text; n drawn as in section large; the printed dice are judged like direct draws (range, faces / quantile and residue cells, successive pairs), and the package-global generator must be untouched; non-trivial = n not a power of two or n > 2^32; distinct by (n, K, state)", vdraws),
 		func(t *rapid.T, s *rt.Section) {
 			n, kind := drawN(t, s, 0)
 			c := StatCase{N: n, Seed: drawSeed(t), Draws: vdraws, Via: "vm", Times: rapid.SampledFrom([]int{20, 100, 500}).Draw(t, "times"), Class: kind,
-				Lead: rapid.SampledFrom(vmLeads).Draw(t, "lead")}
+				Lead: rapid.SampledFrom(vmLeads).Draw(t, "lead"), Body: rapid.SampledFrom([]string{"", "", "", "func", "computed"}).Draw(t, "body")}
+			if c.Body != "" && c.Times > 200 {
+				c.Times = 200
+			}
 			if c.Draws > c.Times*1000 {
 				c.Draws = c.Times * 1000 // at most 1000 Runs per case
 			}
@@ -876,7 +924,8 @@ func TestProp(t *testing.T) {
 			s.ClassN("draws", int64(c.Draws))
 			classify(s, c)
 			s.Class(fmt.Sprintf("times:%d", c.Times))
-			h := rt.Hash(statKey(c))
+			s.Class("body:" + c.Body)
+			h := rt.Hash(statKey(c) + c.Body)
 			if nonTrivialN(c.N) {
 				s.NonTrivial(h)
 			}
